@@ -50,7 +50,13 @@ func globalRegexpLiteral(g *ssa.Global) (string, bool) {
 		}
 	}
 	// the synthetic package initialiser is not in allFunctions
-	if init := g.Pkg.Func("init"); init != nil {
+	initSeen := false
+	for _, f := range allFunctions(g.Pkg) {
+		if f == g.Pkg.Func("init") {
+			initSeen = true
+		}
+	}
+	if init := g.Pkg.Func("init"); init != nil && !initSeen {
 		for _, b := range init.Blocks {
 			for _, in := range b.Instrs {
 				st, ok := in.(*ssa.Store)
